@@ -25,7 +25,7 @@ ASSUMPTIONS = [
     "tolerance = half a unit of the last printed digit of the token fmt % x, plus 4 ulp of slack",
 ]
 REQUIRED = ["write_read_pairs", "samples_compared", "wrapped_pairs_multi_line", "pairs_curve_count_multiple_of_capacity",
-            "engine_numpy_pairs", "engine_normal_pairs", "nan_samples_compared", "index_null_equal_samples", "cases_in_memory_dlm_not_space", "rewrites_after_inplace_edit", "cases_data_width_equals_widest_field", "second_generation_writes", "cases_digit_named_curves", "cases_wrap_left_to_the_object"]
+            "engine_numpy_pairs", "engine_normal_pairs", "nan_samples_compared", "index_null_equal_samples", "cases_in_memory_dlm_not_space", "rewrites_after_inplace_edit", "cases_data_width_equals_widest_field", "second_generation_writes", "cases_digit_named_curves", "cases_wrap_left_to_the_object", "cases_wrap_argument_not_a_python_bool"]
 SOFT_DEADLINE = {"quick": 90, "thorough": 1500}
 LEVEL_TEXT = ("Exploration of the (shape x values x writer options x engine) product space with a per-sample oracle whose "
               "tolerance is derived from the token actually printed; line capacity is observed from the emitted text.")
@@ -56,6 +56,11 @@ def grid(tier):
         for spell in ("Yes", "yes", "YES", "No", "NO", "Y"):
             k += 1
             yield {"n": n, "r": 3, "opts": {}, "engine": ["numpy", "normal"][k % 2], "values": "plain", "seed": 8 * k, "wrap_item": spell}
+    for form in ("numpy", "int"):
+        for wrap in (True, False):
+            for n in (3, 8, 14, 21):
+                k += 1
+                yield {"n": n, "r": 3, "opts": {"wrap": wrap}, "engine": ["numpy", "normal"][k % 2], "values": "plain", "seed": 8 * k, "wrap_form": form}
     for tight in (0, 1, 2):
         for lhs in ("", " ", "  ", "   "):
             for values, fmt in (("plain", "%.5f"), ("wide", "%.5f"), ("wide", "%24.16e"), ("plain", "%.2f")):
@@ -95,7 +100,7 @@ def random_case(rng, tier):
     return {"n": n, "r": rng.choice([1, 2, 3, 5, 12, 20, 21, 22, 30]), "opts": o, "engine": rng.choice(["numpy", "normal"]),
             "values": rng.choice(["plain", "wide", "wide", "halfway", "ints", "nearnull"]), "nan": rng.choice([0, 0, 0.2, 0.6]),
             "null": rng.choice([-999.25, -9999, 0, 999.25, 2147483647, -9999999.25, 99999999999, 3.4028235e+38]), "seed": rng.randrange(10 ** 9),
-            "tight_width": rng.choice([None, None, None, 0, 1, 2, 3]), "wrap_item": rng.choice([None] * 8 + ["Yes", "yes", "YES", "No"])}
+            "tight_width": rng.choice([None, None, None, 0, 1, 2, 3]), "wrap_item": rng.choice([None] * 8 + ["Yes", "yes", "YES", "No"]), "wrap_form": rng.choice([None] * 6 + ["numpy", "int"])}
 
 
 def make_values(case):
@@ -191,6 +196,10 @@ def run_case(case, ctx):
         ctx.count("cases_digit_named_curves")
     for j in range(n):
         las.append_curve(names[j], np.array(data[j], dtype=float), unit="m" if j == 0 else "u")
+    if case.get("wrap_form") and "wrap" in kw:
+        # the same choice in another argument form: a numpy bool (what a comparison of arrays yields) or 0 / 1
+        kw["wrap"] = {"numpy": np.bool_(kw["wrap"]), "int": int(kw["wrap"])}[case["wrap_form"]]
+        ctx.count("cases_wrap_argument_not_a_python_bool")
     if case.get("wrap_item"):
         # the object's own WRAP item in some spelling, and write() left to decide (wrap=None)
         las.version["WRAP"].value = case["wrap_item"]
